@@ -322,6 +322,24 @@ pub fn c01_run(ctx: &mut Ctx, case: &TokCase) {
             if let Err((check, detail)) = check_partition(&spec, user.as_deref(), o, s, &toks, tok.dictionary()) {
                 ctx.violation(&check, &format!("C01:{check}"), detail + &format!(" | tokens {:?}", toks_brief(&toks)), case.brief(s, o));
             }
+            if chars.len() % 5 == 1 {
+                // tokenize() once more on the same worker, without reset_sentence: the tokens are a partition again
+                match guarded(|| {
+                    w.tokenize();
+                    read_tokens(&w)
+                }) {
+                    Ok(again) => {
+                        if let Err((check, detail)) = check_partition(&spec, user.as_deref(), o, s, &again, tok.dictionary()) {
+                            ctx.violation(&check, &format!("C01:{check}:after_second_tokenize"), format!("after a second tokenize() without reset_sentence: {detail} | tokens {:?}", toks_brief(&again)), case.brief(s, o));
+                        }
+                        ctx.bucket("tokenize_called_twice");
+                    }
+                    Err(p) => {
+                        ctx.violation("tokenize_panicked", &format!("C01:tokenize:{}:second_call", panic_class(&p)), p, case.brief(s, o));
+                        w = tok.new_worker();
+                    }
+                }
+            }
             ctx.total("tokens_observed", toks.len() as u64);
             if chars.len() >= 2 && rout.n_opt >= 1 {
                 ctx.distinct(case_hash(case, s, o));
